@@ -21,6 +21,7 @@ type genState struct {
 	maxSize int
 	noRej   bool // avoid batches that are rejected inside the transaction (memstore has no rollback)
 	words   []string
+	old     map[string][]Val // values stored earlier at a path
 	dim     int
 }
 
